@@ -253,6 +253,8 @@ type 'a samp =
 | Unif of key list * (key -> 'a samp)
 | Sample of key list * nat * (key list -> 'a samp)
 
+val bind : 'a1 samp -> ('a1 -> 'a2 samp) -> 'a2 samp
+
 type call =
 | CExpo of q
 | CFlip of q
@@ -270,6 +272,8 @@ val choose_exec :
   list) * q list
 
 val rotate : nat -> 'a1 list -> 'a1 list
+
+val unit_draw : q -> bool
 
 val exec : 'a1 samp -> q list -> call list -> 'a1 result * call list
 
@@ -399,6 +403,10 @@ val build_full : graph -> model_kind -> q -> gst -> fulldata
 val finish : graph -> model_kind -> q -> bool -> gst -> simout
 
 val is_empty : kld -> bool
+
+val liftr : 'a1 result -> 'a1 samp
+
+val event_st : graph -> model_kind -> bool -> q -> q -> q -> gst -> gst samp
 
 val event :
   graph -> model_kind -> bool -> q -> q -> q -> gst -> (gst -> simout samp)
